@@ -1105,6 +1105,16 @@ class Engine:
                 last = f.path.split("::")[-1]
                 if last in ("Some",):
                     return [(st, mk_option(cargs[0]))]
+                if last == "Ok" and f.path.endswith("Result::Ok"):
+                    return [(st, mk_ok(cargs[0]))]
+                if last == "Err" and f.path.endswith("Result::Err"):
+                    return [(st, mk_err(cargs[0]))]
+                parent = f.path.rsplit("::", 1)[0] if "::" in f.path else ""
+                tab = self.enum_tables.get(parent) or self.enum_tables.get(strip_generics(parent))
+                if tab:
+                    ds = [d for d, n_ in tab.items() if n_ == last]
+                    if ds:
+                        return [(st, EnumV(parent, last, ds[0], {i: a for i, a in enumerate(cargs)}))]
                 st.trace.append(Event("call", f.path, f.path, tuple(snapshot(a) for a in cargs), fr.bi, "?", len(st.frames), fr.body.npath if fr.body else "?"))
                 return [(st, st.fresh(("ret", f.path)))]
             self.push_frame(st, body, list(cargs), Loc(tmp), -1)
